@@ -18,7 +18,7 @@ type DataSpec struct {
 	Lit  []byte `json:"lit,omitempty"`
 }
 
-var DataKinds = []string{"rand", "alpha", "text", "runs", "periodic", "copies", "fib", "allbytes", "zeros", "edge4k", "edge32k", "mixed"}
+var DataKinds = []string{"rand", "alpha", "text", "runs", "periodic", "copies", "fib", "allbytes", "zeros", "edge4k", "edge32k", "logcopies", "head_run", "mixed"}
 
 var words = []string{"the ", "of ", "and ", "compress", "ion ", "window ", "deflate ", "block ", "huffman ", "a ", "to ", "in ", "stream", "\n", "0123456789", "   ", "ing ", "tion", "er ", "Intel ", "fastgo "}
 
@@ -115,6 +115,43 @@ func (d DataSpec) Bytes() []byte {
 			j := r.Intn(i + 1)
 			b[i], b[j] = b[j], b[i]
 		}
+	case "logcopies": // short literal runs and copies whose length and distance are log-uniform: every length/distance code and extra-bit width
+		for len(b) < n {
+			if len(b) > 4 && r.Intn(3) > 0 {
+				maxd := len(b)
+				if maxd > 32768 {
+					maxd = 32768
+				}
+				dbits := 1 + r.Intn(15)
+				if d.P1 == 1 && r.Intn(10) < 7 {
+					dbits = 13 + r.Intn(3) // far-biased variant: distances of 4..32 KiB (12-13 extra bits)
+				}
+				dd := 1 + r.Intn(1<<uint(dbits))
+				if dd > maxd {
+					dd = 1 + r.Intn(maxd)
+				}
+				lbits := 2 + r.Intn(7)
+				l := 3 + r.Intn(1<<uint(lbits))
+				if l > 258 {
+					l = 258
+				}
+				st := len(b) - dd
+				for i := 0; i < l; i++ {
+					b = append(b, b[st+i])
+				}
+			} else {
+				b = append(b, r.Bytes(1+r.Intn(6))...)
+			}
+		}
+	case "head_run": // incompressible head, then one long run of P1 bytes (sparse-file shape); head = Len-P1
+		run := d.P1
+		if run > n {
+			run = n
+		}
+		b = append(b, r.Bytes(n-run)...)
+		for len(b) < n {
+			b = append(b, 0)
+		}
 	case "allbytes":
 		for len(b) < n {
 			b = append(b, byte(len(b)*131+r.Intn(2)))
@@ -161,8 +198,19 @@ func GenData(r *kern.Rng, maxLen int) DataSpec {
 		d.P1 = r.Pick(1, 2, 3, 100, 1000, 4095, 4096, 4097, 8192, 32767, 32768, 32769)
 	case "fib":
 		d.P1 = r.Pick(8, 16, 24, 30, 40)
+	case "head_run":
+		d.P1 = r.Pick(300, 5000, 20000, 70000)
+	case "logcopies":
+		d.P1 = r.Pick(0, 1, 1)
 	}
 	d.Len = GenLen(r, maxLen)
+	if d.Kind == "head_run" && r.Pct(60) {
+		// the head ends a little before a multiple of the token-block size
+		d.Len = d.P1 + r.Pick(1, 2, 3)*32767 - r.Intn(400)
+		if d.Len > maxLen {
+			d.Len = GenLen(r, maxLen)
+		}
+	}
 	return d
 }
 
